@@ -233,6 +233,17 @@ class SubListTF(TF):
 import collections.abc as _abc
 
 
+class ExpandingTag(ht.Tag):
+    """A user Tag subclass that expands (like any tagifiable) to a TagList of its payload."""
+
+    def __init__(self, payload_recipes):
+        super().__init__("unexpanded-expanding-tag")
+        self.payload_recipes = payload_recipes
+
+    def tagify(self):
+        return ht.TagList(*[build(r) for r in self.payload_recipes]).tagify()
+
+
 class SeqTF(_abc.Sequence):
     """A tagifiable object that also implements the Sequence protocol (it is one child, not a container of children)."""
 
@@ -261,7 +272,7 @@ class FlakyTF(TF):
         return super().tagify()
 
 
-HARNESS_DOUBLES = (ReprObj, TF, TFObj, LazyMeta, SeqTF)  # (StoredTF etc. are TF subclasses)
+HARNESS_DOUBLES = (ReprObj, TF, TFObj, LazyMeta, SeqTF, DynObj)  # (StoredTF etc. are TF subclasses)
 
 _SHARED = {}
 
@@ -347,6 +358,14 @@ def _build(r):
             return LazyMeta(r["c"], r.get("ret", "list"))
         if r.get("as") == "flaky":
             return FlakyTF(r["c"], r.get("ret", "list"))
+        if r.get("as") == "tagsub":
+            return ExpandingTag(r["c"])
+        if r.get("as") == "inst":
+            o = DynObj()
+            tf_ = TF(r["c"], r.get("ret", "list"))
+            o.tagify = tf_.tagify
+            o.payload_recipes = r["c"]
+            return o
         if r.get("as") == "seq":
             return SeqTF(r["c"], r.get("ret", "list"))
         if r.get("as") == "stored":
